@@ -132,23 +132,27 @@ def pipeline_traces(report, tier):
     """Binding of the composed pipeline model (spec/Jasm.tla): every (rule document, listing) of MC_Jasm's universe is
     run as ONE real operation whose stage events (harness/stagetrace.py) TLC explains step by step with the actions
     of Jasm.tla (Trace_Jasm).  Drift of these implementation-shaped models is reported, never alarmed."""
-    rules, listings = stage_universe()
-    # quick: every document on a fixed eighth of the listings (offset by the document index); thorough: all pairs
-    stride = 8 if tier == "quick" else 1
-    pairs = [[ri, li] for ri in range(len(rules)) for li in range(len(listings)) if (li + ri) % stride == 0]
-    obs = matchpipe.drive({"rules": rules, "listings": listings, "pairs": pairs, "stages": True}, tag="stages")
-    gone = [o for o in obs if o["outcome"] == "unavailable"]
-    if gone:
-        report.cov["pipeline_model"] = {"traces": 0, "drift": f"stage boundaries not found in the code: {gone[0]['why']}"}
-        report.notes.append("pipeline model (Jasm.tla): the stage boundaries the tracer wraps do not exist any more -- drift, not a violation")
-        return
-    cases = [{"d": o["r"] + 1, "l": o["l"] + 1, "events": o["events"]} for o in obs]
+    cases, universe = [], 0
+    for u in (1, 2):
+        rules, listings = stage_universe(u)
+        # universe 1 (macro documents), quick: every document on a fixed eighth of the listings (offset by the
+        # document index); thorough: all pairs.  Universe 2 (feature documents): all pairs in both tiers
+        stride = 8 if tier == "quick" and u == 1 else 1
+        pairs = [[ri, li] for ri in range(len(rules)) for li in range(len(listings)) if (li + ri) % stride == 0]
+        universe += len(rules) * len(listings)
+        obs = matchpipe.drive({"rules": rules, "listings": listings, "pairs": pairs, "stages": True}, tag=f"stages{u}")
+        gone = [o for o in obs if o["outcome"] == "unavailable"]
+        if gone:
+            report.cov["pipeline_model"] = {"traces": 0, "drift": f"stage boundaries not found in the code: {gone[0]['why']}"}
+            report.notes.append("pipeline model (Jasm.tla): the stage boundaries the tracer wraps do not exist any more -- drift, not a violation")
+            return
+        cases += [{"u": u, "d": o["r"] + 1, "l": o["l"] + 1, "events": o["events"]} for o in obs]
     final = validate_stage_traces(cases, report)
-    summarize_pipeline(report, cases, final, len(rules) * len(listings))
+    summarize_pipeline(report, cases, final, universe)
 
 
-def stage_universe():
-    """Rule documents and listings of MC_Jasm's universe (exported by TLC), as worker job entries."""
+def stage_universe(u=1):
+    """Rule documents and listings of MC_Jasm's universes (exported by TLC), as worker job entries."""
     out = os.path.join(scratch(), "ujasm.json")
     ex = tlc.run("Export_Jasm", cfg="Export_Jasm.cfg", env={"JASM_OUT": out}, workers=1)
     tlc.cleanup(ex)
@@ -156,7 +160,7 @@ def stage_universe():
         U = json.load(f)
     os.unlink(out)
     rules = []
-    for d in U["docs"]:
+    for d in U["docs" if u == 1 else "docs2"]:
         doc = {}
         cfg = {}
         if d["cfgmfm"] != "-":
@@ -169,7 +173,7 @@ def stage_universe():
             doc["macros"] = [macro_native(m) for m in d["macros"]]
         doc["pattern"] = native(d["pattern"])
         rules.append({"id": len(rules), "yaml": dump(doc)})
-    listings = [{"id": n, "text": "\n".join(t) + "\n"} for n, t in enumerate(U["texts"])]
+    listings = [{"id": n, "text": "\n".join(t) + "\n"} for n, t in enumerate(U["texts" if u == 1 else "texts2"])]
     return rules, listings
 
 
@@ -192,7 +196,7 @@ def summarize_pipeline(report, cases, final, universe):
     rejected = {}
     for tid, (v, l) in sorted(final.items()):
         if not v.startswith("ok"):
-            rejected.setdefault(v, []).append({"doc": cases[tid - 1]["d"], "listing": cases[tid - 1]["l"], "event": l})
+            rejected.setdefault(v, []).append({"universe": cases[tid - 1]["u"], "doc": cases[tid - 1]["d"], "listing": cases[tid - 1]["l"], "event": l})
     steps = sum(len(c["events"]) for c in cases)
     kinds = {}
     for c in cases:
